@@ -35,7 +35,7 @@ def b64encode(data):
     return ''.join(out)
 
 
-def b64decode(text):
+def b64decode(text, strict_pad=True):
     """Strict: only alphabet characters, padding only at the end, length multiple of 4, zero pad bits."""
     text = text.strip()
     if len(text) % 4:
@@ -59,9 +59,9 @@ def b64decode(text):
         for v in vals:
             n = (n << 6) | v
         n <<= 6 * pad
-        if pad == 1 and n & 0xFF:
+        if strict_pad and pad == 1 and n & 0xFF:
             raise ArmorError('non-zero pad bits')
-        if pad == 2 and n & 0xFFFF:
+        if strict_pad and pad == 2 and n & 0xFFFF:
             raise ArmorError('non-zero pad bits')
         out += n.to_bytes(3, 'big')[:3 - pad]
     return bytes(out)
@@ -78,7 +78,7 @@ def enarmor(label, data, headers=(), width=64):
     return '\n'.join(lines) + '\n'
 
 
-def dearmor(text):
+def dearmor(text, strict_pad=True):
     """Find the first armor block. -> dict(label, headers [(k, v)], data, crc_ok, crc, max_line, cleartext, hashes)"""
     if isinstance(text, (bytes, bytearray)):
         text = bytes(text).decode('latin-1')
@@ -134,11 +134,11 @@ def dearmor(text):
     crc = None
     if i < len(lines) and lines[i].startswith('='):
         maxline = max(maxline, len(lines[i].rstrip('\r')))
-        crc = int.from_bytes(b64decode(lines[i][1:].strip()), 'big')
+        crc = int.from_bytes(b64decode(lines[i][1:].strip(), strict_pad), 'big')
         i += 1
     if i == len(lines) or lines[i].strip() != '-----END PGP %s-----' % label:
         raise ArmorError('missing or mismatched armor tail')
-    data = b64decode(''.join(b))
+    data = b64decode(''.join(b), strict_pad)
     res.update({'label': label, 'headers': headers, 'data': data, 'crc': crc,
                 'crc_ok': (crc == crc24(data)) if crc is not None else None, 'max_line': maxline})
     return res
